@@ -54,6 +54,44 @@ def role(shape: Shape, f: str) -> str:
     return ("kept" if kept else "helper") + ("-ref" if reffed else "")
 
 
+def via_module_attr_refs(shape: Shape, hist, i) -> set:
+    """Functions reachable from a function that is passed as a higher-order reference through a
+    module attribute (`L.apply(mod.f)`): import form module / module_as and callee in another module."""
+    if not str(shape.real.get("import_form", "from")).startswith("module"):
+        return set()
+    from . import materialize as mat
+    prog = hist[i]["prog"]
+    mods = mat.module_of(shape, prog["layout"])
+    start = set(s["g"] for f in shape.funs for s in shape.stmts[f] if s["k"] == "ref" and mods[s["g"]] != mods[f])
+    reach = set(start)
+    todo = list(start)
+    while todo:
+        x = todo.pop()
+        for s in shape.stmts[x]:
+            if s["k"] in ("call", "ref", "keep") and s["g"] not in reach:
+                reach.add(s["g"])
+                todo.append(s["g"])
+    return reach
+
+
+def module_attr_tag(shape: Shape, hist, i) -> str:
+    """'ref-via-module-attr|' when the most recent change (or, for a first evaluation, the program)
+    involves a function only known to the analysis through such a reference."""
+    R = via_module_attr_refs(shape, hist, i)
+    if not R:
+        return ""
+    e = last_edit(hist, i)
+    if e is None or e["op"] != "edit":
+        return "ref-via-module-attr|" if any(shape.dpath[f] for f in R) or e is not None else ""
+    if e["kind"] in ("body", "cos", "default") and e["what"] in R:
+        return "ref-via-module-attr|"
+    if e["kind"] == "var" and any(e["what"] in shape.reads[f] for f in R):
+        return "ref-via-module-attr|"
+    if e["kind"] == "arg" and e["what"][0] in R:
+        return "ref-via-module-attr|"
+    return ""
+
+
 def _detail(shape: Shape, hist, i, o, **kw) -> Dict[str, Any]:
     d = {"shape": shape.to_json(), "history": hist[: i + 1], "failing_eval_index": i,
          "expected": {k: hist[i].get(k) for k in ("result", "log", "err", "style")},
@@ -91,12 +129,12 @@ def c01(shape: Shape, hist, obs, realisation: str = "") -> List[Viol]:
         cause = edit_cause(shape, hist, i)
         if o.get("err") is not None:
             e = o["err"]
-            res.append(("C01|refused|%s|%s|after=%s" % (e["type"], e.get("code"), cause),
+            res.append(("C01|%srefused|%s|%s|after=%s" % (module_attr_tag(shape, hist, i), e["type"], e.get("code"), cause),
                         _detail(shape, hist, i, o, realisation=realisation)))
             break
         if o.get("result") != rec["result"]:
             stale = any(o.get("result") == r2["result"] for (j, r2) in evals(hist) if j < i)
-            res.append(("C01|%s|%s" % ("stale" if stale else "wrong", cause),
+            res.append(("C01|%s%s|%s" % (module_attr_tag(shape, hist, i), "stale" if stale else "wrong", cause),
                         _detail(shape, hist, i, o, realisation=realisation)))
             break   # later evaluations of this history run on a diverged store
     return res
